@@ -292,7 +292,80 @@ func runInBubble(b *Beh, tr *vtrace.Tracer) {
 		ext = []string{}
 	}
 	tr.Emit("Cfg", vtrace.Ev{"lmtp": b.Cfg.Lmtp, "ext": ext, "extn": b.Cfg.Extn, "cert": b.Cfg.Cert})
-	for _, st := range b.Steps {
+	// The call sequence of a behaviour was chosen by TLC for the results the
+	// specification predicts.  When the code under test answers differently the
+	// driver keeps to the targets' call language (variable tp of the
+	// specification) the way a target would: calls that are not allowed after what
+	// actually happened are skipped (after a failed Mail / Reset / Data only Close,
+	// no Data without an accepted recipient, ...).
+	ts := "new"
+	nok, nclose := 0, 0
+	allowed := func(c string) bool {
+		switch c {
+		case "Connect":
+			return ts == "new"
+		case "Mail":
+			return ts == "idle"
+		case "Rcpt":
+			return ts == "txn"
+		case "Data", "LData":
+			return ts == "txn" && nok >= 1
+		case "Reset":
+			return (ts == "txn" || ts == "sentok") && !b.Cfg.Lmtp
+		case "Noop", "DirectClose":
+			return ts == "idle" || (ts == "new" && nclose >= 1)
+		case "Close":
+			return ts != "new" || nclose >= 1
+		}
+		return false
+	}
+	after := func(c string, ok bool) {
+		switch c {
+		case "Connect":
+			if ok {
+				ts = "idle"
+			}
+		case "Mail":
+			ts, nok = "must", 0
+			if ok {
+				ts = "txn"
+			}
+		case "Rcpt":
+			if ok {
+				nok++
+			}
+		case "Data", "LData":
+			ts = "sent"
+			if ok && !b.Cfg.Lmtp {
+				ts = "sentok"
+			}
+		case "Reset":
+			ts = "must"
+			if ok {
+				ts = "idle"
+			}
+		case "Noop":
+			if !ok && ts != "new" {
+				ts = "must"
+			}
+		case "Close", "DirectClose":
+			ts = "new"
+			nclose++
+		}
+	}
+	steps := append([]Step{}, b.Steps...)
+	for i := 0; i <= len(steps); i++ {
+		if i == len(steps) {
+			// a target always ends with Close (Commit / Abort)
+			if ts == "new" {
+				break
+			}
+			steps = append(steps, Step{C: "Close", Rs: []string{"ok"}})
+		}
+		st := steps[i]
+		if !allowed(st.C) {
+			continue
+		}
 		rs := st.Rs
 		if rs == nil {
 			rs = []string{}
@@ -342,6 +415,7 @@ func runInBubble(b *Beh, tr *vtrace.Tracer) {
 		if hung {
 			break
 		}
+		after(st.C, res.err == nil && res.panicV == nil)
 	}
 	// tear down: whatever the client left open is closed by the harness
 	d.mu.Lock()
